@@ -2,7 +2,8 @@
 
 Virtual time: the polling loop's timer/sleep are bound to a VClock, os.waitpid / pid_exists are answered
 by the simulated process table whose exit events fire at scripted virtual instants.  The exit instant is
-placed on a grid around every polling instant and around the deadline.  A small live run with real
+placed on a grid around every polling instant and around the deadline; so is the instant at which somebody
+else collects the child (foreign reap: ECHILD in the middle of the polling, PID free or reused).  A small live run with real
 children ties the status decoding to the real waitpid().
 """
 import itertools
@@ -19,12 +20,16 @@ TECHNIQUE = "runtime monitor on a virtual clock: recorded (time, sleep, waitpid)
 RULE = ("one case = (kind child/non-child/never-existed, exit instant, exit status, timeout, EINTR index) for Process.wait(), or "
         "(1-6 processes with exit instants/statuses, timeout, callback) for wait_procs(). exit instants are placed exhaustively on "
         "the grid {each polling instant of a dry run, +-1us, midpoints} U {deadline +-1us, +-20ms, +-39ms, +-41ms}; exit codes "
-        "0-255 and signals 1-64 (+core flag) exhaustive; all exit-order permutations for <=4 processes. non-trivial = exit "
+        "0-255 and signals 1-64 (+core flag) exhaustive; all exit-order permutations for <=4 processes. the instant at which "
+        "somebody else in the process collects the child (ECHILD from then on; PID free, or reused at once by a non-child that "
+        "ends later / never) is placed on the same grid, the child having ended there or up to 30 ms earlier. non-trivial = exit "
         "strictly between two polls or within 40 ms of the deadline, EINTR injected, or >=2 processes with different exit "
         "instants; distinct by case hash")
 ASSUMPTIONS = [
     "virtual time: only psutil's own timer reads and sleeps advance the clock; process exit fires at its scripted instant during a sleep",
     "a non-child that exits is reaped by its own parent at once (it leaves the table at the exit instant)",
+    "a child collected by somebody else (SIGCHLD handler, another thread's waitpid) leaves the table at that instant and its PID is free or "
+    "taken at once by a non-child; a blocking waitpid() pending on it wakes up with ECHILD",
     "TimeoutExpired must be raised at an instant t with deadline <= t <= deadline + 0.04 s and only if the process was still alive at that instant",
 ]
 REQUIRED_COUNTERS = ["wait_calls_checked", "timeouts_checked", "wait_procs_checked", "live_children_checked"]
@@ -67,6 +72,8 @@ class World:
         self.access_exit_fired_at = None
         self.eintr_at = eintr_at
         self.nwait = 0
+        self.foreign = False
+        self.collected_at = {}       # pid -> instant at which somebody else collected our child
         for i, pr in enumerate(procs):
             if pr["kind"] == "never":
                 continue
@@ -77,8 +84,26 @@ class World:
                 else:
                     t.remove(pr["pid"])
             self.fires[pr["pid"]] = fire
-            if pr["exit_at"] is not None:
+            R = pr.get("reaped_at")
+            if pr["exit_at"] is not None and (R is None or pr["exit_at"] <= R):
                 self.clock.at(self.t0 + pr["exit_at"], fire)
+            if R is not None:
+                # somebody else in this very process (a SIGCHLD handler, another thread in os.waitpid(-1), a
+                # subprocess.Popen.poll()) collects the child at that instant - the child ends there at the latest -: from
+                # then on waitpid() answers ECHILD, and the PID is free, or already belongs to a newcomer that is not our child
+                def collect(pr=pr):
+                    q = t.procs.get(pr["pid"])
+                    if q is None or q.ppid != 2:
+                        return          # psutil's own poll was first: it holds the status
+                    t.remove(pr["pid"])
+                    self.collected_at[pr["pid"]] = self.clock.t
+                    nc = pr.get("newcomer_exit_at")
+                    if nc is not None:
+                        t.spawn(pr["pid"], 999000 + len(self.collected_at), ppid=1, comm=b"newcomer")
+                        if nc != "never":
+                            self.clock.at(self.t0 + nc, lambda: t.remove(pr["pid"]))
+                self.foreign = True
+                self.clock.at(self.t0 + R, collect)
         self.t = t
         vk = env["vkernel"].VK()
         vk.table = t
@@ -94,6 +119,17 @@ class World:
             if self.eintr_at is not None and self.nwait - 1 == self.eintr_at:
                 self.polls.append((self.clock.t, pid, "EINTR"))
                 return InterruptedError(4, "Interrupted system call")
+            if self.foreign and not flags & os.WNOHANG:
+                # a blocking waitpid() whose child is collected by somebody else meanwhile wakes up with ECHILD
+                while True:
+                    q = t.procs.get(pid)
+                    if q is None or q.ppid != 2:
+                        return ChildProcessError(10, "No child processes")
+                    if q.zombie:
+                        return None
+                    if not self.clock.timers:
+                        raise RuntimeError("blocking waitpid would never return in the simulation")
+                    self.clock.advance(max(0.0, self.clock.timers[0][0] - self.clock.t))
             return None
         t.waitpid_hook = hook
 
@@ -164,7 +200,8 @@ def run_wait_case(case, acc):
     viols = []
     kind, exit_at, status, timeout = case["kind"], case["exit_at"], case["status"], case["timeout"]
     ctx = f"case={case}"
-    w = World([dict(pid=PID, kind=kind, exit_at=exit_at, status=status)], eintr_at=case.get("eintr_at"),
+    w = World([dict(pid=PID, kind=kind, exit_at=exit_at, status=status, reaped_at=case.get("reaped_at"),
+                    newcomer_exit_at=case.get("newcomer_exit_at"))], eintr_at=case.get("eintr_at"),
               wall_steps=case.get("wall_steps", ()))
     nontrivial = case.get("eintr_at") is not None
     with w:
@@ -235,6 +272,12 @@ def run_wait_case(case, acc):
                 viols.append(("poll_sleep_exceeds_40ms", ctx + f" max={max(sleeps)}"))
         if timeout == 0 and sleeps:
             viols.append(("timeout0_slept", ctx + f" sleeps={sleeps}"))
+        if case.get("reaped_at") is not None:
+            foreign_reap_verdict(case, w, p, r, start, end, ctx, viols, acc)
+            ts = sorted({t for t, _, _ in w.polls})
+            R = w.t0 + case["reaped_at"]
+            acc.case(case, any(a < R < b for a, b in zip(ts, ts[1:])) or (deadline is not None and abs(R - deadline) <= 0.04), viols)
+            return
         if r[0] == "exc":
             viols.append((f"wait_exception:{type(r[1]).__name__}", ctx + f" {r[1]!r}"))
         elif r[0] == "ok":
@@ -313,6 +356,69 @@ def run_wait_case(case, acc):
     acc.case(case, nontrivial, viols)
 
 
+def foreign_reap_verdict(case, w, p, r, start, end, ctx, viols, acc):
+    """Our child is collected by somebody else at R (it ended at exit_at <= R; in between it is a zombie whose status wait()
+    gets if one of its polls falls there).  From R on the PID is free - or belongs at once to a newcomer, not our child, which
+    ends at newcomer_exit_at.  The statement: the exit code if wait() itself collected the status; otherwise None, not before
+    the PID is gone; TimeoutExpired only if the PID is still there when it is raised, at most one poll after the deadline."""
+    ps = _env["ps"]
+    timeout, status = case["timeout"], case["status"]
+    nc = case.get("newcomer_exit_at")
+    how = "child_collected_by_somebody_else" + ("" if nc is None else "_and_pid_reused")
+    acc.count("waits_with_child_collected_by_somebody_else")
+    if nc is not None:
+        acc.count("waits_with_child_collected_by_somebody_else_and_pid_reused")
+    own = [ev for ev in w.vk.events if ev[0] == "reaped" and ev[1] == PID]      # wait()'s own waitpid() got the status
+    X = w.t0 + (case["exit_at"] if case["exit_at"] is not None and case["exit_at"] <= case["reaped_at"] else case["reaped_at"])
+    if own:
+        G = X
+    elif PID not in w.collected_at:
+        G = None                       # the call was over before anything happened to the child
+    elif nc is None:
+        G = w.collected_at[PID]
+    else:
+        G = None if nc == "never" else max(w.t0 + nc, w.collected_at[PID])
+    where = f" collected +{case['reaped_at']:.6f} pid free " + ("never" if G is None else f"+{G - start:.6f}") + f" call over +{end - start:.6f}"
+    if r[0] == "exc":
+        viols.append((f"wait_exception:{type(r[1]).__name__}:{how}", ctx + f" {r[1]!r}"))
+    elif r[0] == "ok":
+        want = expected_value("child", status) if own else None
+        if G is None or end < G - 1e-12:
+            viols.append((f"returned_before_pid_gone:{how}", ctx + f" -> {r[1]!r}" + where))
+        if r[1] != want:
+            viols.append((f"wrong_exit_value:{how}", ctx + f" got {r[1]!r} want {want!r} (status collected by "
+                          f"{'wait() itself' if own else 'somebody else'})"))
+        n0 = len(w.polls)
+        for _ in range(2):
+            try:
+                r2 = p.wait(timeout)
+            except Exception as e:  # noqa: BLE001
+                r2 = e
+            if r2 != r[1]:
+                viols.append((f"later_wait_differs:{how}", ctx + f" first {r[1]!r} later {r2!r}"))
+        if len(w.polls) != n0:
+            viols.append((f"later_wait_polled_again:{how}", ctx))
+    else:
+        acc.count("timeouts_checked")
+        e = r[1]
+        if timeout is None:
+            viols.append((f"timeout_without_timeout:{how}", ctx))
+            return
+        deadline = start + timeout
+        if e.seconds != timeout or e.pid != PID:
+            viols.append(("timeout_wrong_fields", ctx + f" seconds={e.seconds} pid={e.pid}"))
+        if end < deadline - 1e-12:
+            viols.append((f"timeout_before_deadline:{how}", ctx + f" raised at +{end - start:.6f} deadline +{timeout}"))
+        if end > deadline + 0.04 + 1e-9:
+            viols.append((f"timeout_more_than_one_poll_late:{how}", ctx + f" raised at +{end - start:.6f} deadline +{timeout}"))
+        if own:
+            viols.append((f"timeout_although_status_collected:{how}", ctx + where))
+        elif G is not None and G <= end + 1e-12:
+            # (virtual time only moves in the call's own sleeps: whatever is gone by the raising instant was gone when the
+            # last sleep returned, with the deadline check still to come)
+            viols.append((f"timeout_although_pid_gone:{how}", ctx + where))
+
+
 def dry_poll_times(kind, timeout):
     setup()
     w = World([dict(pid=PID, kind=kind, exit_at=None, status=0)])
@@ -350,6 +456,7 @@ def grid_cases(tier):
         for timeout in (0, 0.0001, 0.003, 0.05, 0.2):
             for k in range(0, 24):
                 out.append(dict(kind=kind, exit_at=None, exit_at_access=k, status=(5 << 8), timeout=timeout))
+    out += foreign_reap_grid()
     for timeout in (0, 0.05, 0.3, None):
         for x in (0.01, 0.1, 0.29, 0.31, 1.0, None):
             if not (timeout is None and x is None):
@@ -374,6 +481,35 @@ def grid_cases(tier):
     return out
 
 
+def foreign_reap_grid():
+    """The instant at which somebody else collects the child is a placement variable like the exit instant: every polling
+    instant of a dry run, +-1us, midpoints, the deadline +-1us / +-20 ms / +-39 ms / +-41 ms; the child ended right there or a
+    little earlier (a zombie that one of wait()'s polls may still get); the PID stays free, or is reused at once by a
+    non-child that ends shortly after / around the deadline / never."""
+    out = []
+    for timeout in (0.5, 0.05, 0.1, 0.04, 0.003, 0.0001, 0, None):
+        polls = dry_poll_times("child", timeout if timeout is not None else 0.2)
+        pts = {0.0}
+        for a in polls:
+            pts |= {a, a + 1e-6, max(0.0, a - 1e-6)}
+        for a, b in zip(polls, polls[1:]):
+            pts.add((a + b) / 2)
+        if timeout is not None:
+            for d in (0, 1e-6, -1e-6, 0.02, -0.02, 0.039, -0.039, 0.041, -0.041, 0.1):
+                if timeout + d >= 0:
+                    pts.add(timeout + d)
+        for R in sorted(pts):
+            base = dict(kind="child", exit_at=None, status=(9 << 8), timeout=timeout, reaped_at=R)
+            out.append(base)
+            for back in (0.0, 0.0007, 0.03):
+                out.append(dict(base, exit_at=max(0.0, R - back), status=15))
+            after = [R + 0.013, R + 0.05] + ([timeout - 1e-6, timeout + 0.001, "never"] if timeout is not None else [])
+            for nc in after:
+                if nc == "never" or nc >= R:
+                    out.append(dict(base, newcomer_exit_at=nc))
+    return out
+
+
 def gen_wait_case(rng):
     kind = rng.choice(["child", "child", "nonchild"])
     timeout = rng.choice([None, 0, 0.0001, 0.001, 0.04, 0.05, 0.3, 1.0, 2.5, rng.random() * 2])
@@ -393,6 +529,13 @@ def gen_wait_case(rng):
     if rng.random() < 0.15 and timeout is not None:
         case["exit_at"] = None
         case["exit_at_access"] = rng.randrange(0, 40)
+    if kind == "child" and "eintr_at" not in case and "exit_at_access" not in case and rng.random() < 0.15:
+        # somebody else collects the child (see foreign_reap_grid), anywhere - and preferably near the deadline
+        R = rng.choice([rng.random() * ((timeout or 1.0) + 0.1), max(0.0, (timeout or 0.5) + rng.uniform(-0.045, 0.045)), rng.random() * 0.05])
+        case["reaped_at"] = R
+        case["exit_at"] = rng.choice([None, max(0.0, R - rng.random() * 0.05), R])
+        if rng.random() < 0.4:
+            case["newcomer_exit_at"] = rng.choice([R + rng.random() * 0.1, R + rng.random() * 2] + (["never"] if timeout is not None else []))
     if rng.random() < 0.25:
         # the calendar clock is stepped (NTP, date -s, VM resume) while the wait is in progress
         case["wall_steps"] = [[rng.random() * ((timeout or 1.0) + 0.2), rng.choice([-3600.0, -3.0, 3.0, 3600.0, -0.5, 0.5])]
